@@ -214,6 +214,12 @@ def gen_matrix(rng: pyrandom.Random, cat=None, mmax=5, nmax=6, scale_exp=None):
             J[0], J[1] = J[1], J[0]
     elif cat == "nonconflict":
         J = [[abs(x) for x in r] for r in J]
+    elif cat == "clustered":
+        # a large common component plus small deviations (workers' gradients around a common mean): the
+        # pairwise distances are O(1) while the norms are O(1e4), so |a|^2 + |b|^2 - 2<a,b> cancels
+        # catastrophically in float32 although every entry and every difference is exactly representable
+        base = [rng.choice([-1, 1]) * 4096 * rng.randint(2, 8) for _ in range(n)]
+        J = [[base[j] + J[i][j] for j in range(n)] for i in range(m)]
     J = fmat(J)
     if cat == "bad_scale":
         for i in range(m):
